@@ -296,9 +296,13 @@ Loop:
 
 	// Convert JavaScript-style regex flags to Go format,
 	// e.g. /ab+/i becomes /(?i)ab+/.
+	// (An empty pattern stays empty so that the parser
+	// reports it, flags or no flags.)
 	if l.acceptAll(isRegexFlag) {
 		flags := l.newToken(0)
-		t.Value = fmt.Sprintf("(?%s)%s", flags.Value, t.Value)
+		if t.Value != "" {
+			t.Value = fmt.Sprintf("(?%s)%s", flags.Value, t.Value)
+		}
 	}
 
 	return t
